@@ -162,6 +162,59 @@ def apply_rules(ctx, rc):
                      'the reservation is not given the list of directories '
                      'returned by _make_dirs (their ownership is lost)',
                      x.where(), key=key)
+    applied_record_rule(ctx, rc)
+
+
+def applied_record_rule(ctx, rc):
+    """A5: what is handed to the apply routine from outside (not its own
+    recursion) is the record found in the previous build's cache - not the
+    new, still empty record of the running call."""
+    R = ctx.R
+    prog = ctx.prog
+    A = apply_routine(ctx)
+    n = 0
+    for caller, call in prog.callers().get(A.qualname, []):
+        if caller is A or not call.args:
+            continue
+        b = prog.bind_args(call, A)
+        p0 = [p for p in A.params][0] if A.params else None
+        a = b.get(p0)
+        if a is None or isinstance(a, list):
+            continue
+        cns = ctx.H.node_of(caller, call)
+        if not cns:
+            continue
+        # helpers of the apply routine pass the record along
+        if caller.cls == A.cls and not caller.is_public and any(
+                isinstance(g, Func) and g.qualname == caller.qualname
+                for c2 in prog.calls_in(A)
+                for g in prog.resolve_call(c2, A)):
+            continue
+        n += 1
+        org = ctx.H.origins(a, caller, cns[0])
+        # origins are resolved through the getters: a record found in a
+        # cache comes from one of the cache's maps, the own record from an
+        # attribute of the builder (or a constructor)
+        looked_up = [o for o in org if (o[0] == 'attr' and o[1] == R.cache)
+                     or o[0] == 'call']
+        own = [o for o in org if (o[0] == 'attr' and o[1] == R.builder)
+               or o[0] == 'ctor']
+        key = 'record applied by %s' % caller.qualname
+        if looked_up and not own:
+            rc.ok({'apply': key, 'origin': sorted(
+                str(o[-1]) for o in looked_up)[:3]}, key=key)
+        else:
+            rc.violation(
+                'apply-wrong-record | ' + caller.qualname,
+                '%s hands %s to the routine that re-registers a reused '
+                'subtree, which is not (only) the record looked up in the '
+                'previous build\'s cache (origins: %s): the nested outputs '
+                'of the cached record get no directories and no '
+                'reservations' % (caller.qualname, ast.unparse(a)[:40],
+                                  sorted({o[0] for o in org})),
+                prog.loc(caller, call), key=key)
+    if n == 0:
+        raise AnalysisError('no external call of the apply routine')
 
 
 def subtree_walk_rule(ctx, rc, F, visit, what, key_prefix):
